@@ -39,7 +39,7 @@ HARNESSES = [
          unwindset={"tree_ok.0": 66, "harness_read.0": 66, "harness_read.1": 18, "setup.0": 66, "setup.1": 18, "havoc_trees.0": 66, "havoc_trees.1": 18,
                     "copy_from_history.0": 258, "read_from_tree.0": 66, "find_in_history_list.0": 130, "find_in_history_list.1": 130},
          units=["lib/pm2_decoder.c:lha_pm2_decoder_read,read_single_byte,copy_from_history,history_get_count,history_get_offset", "lib/pma_common.c", "lib/tree_decode.c:read_from_tree"],
-         timeout=600, mem_gb=8, bounds="arbitrary INV state (full-size trees 65/17), one read, up to 256-byte copy",
+         timeout=900, mem_gb=8, bounds="arbitrary INV state (full-size trees 65/17), one read, up to 256-byte copy",
          stubs=[BITSTUB, "output_byte: contract stub (asserts room, advances)", "rebuild_tree: contract stub (justified by pm2.rebuild)"]),
     dict(name="pm2.outbyte", src="C09/pm2.c", entry="harness_outbyte", defines=["OUTB_HARNESS", "BITS_ANY"], mode="safety",
          rename_defs=rn({"lib/pm2_decoder.c": ["rebuild_tree"]}), unwind=9,
